@@ -81,11 +81,17 @@ func hasLetterConst(v ssa.Value) bool {
 // caseUses: what the letter case of parameter k of f reaches. evidence = case-sensitive sinks,
 // unknown = uses that are not followed.
 func caseUses(w *World, f *ssa.Function, k int) (evidence, unknown []string) {
+	return caseUsesR(w, f, k, false)
+}
+
+// caseUsesR: as caseUses; with resultSink the text results of f are case-sensitive sinks too (for a function
+// whose answer is spelled in one case whatever the input's).
+func caseUsesR(w *World, f *ssa.Function, k int, resultSink bool) (evidence, unknown []string) {
 	// stores of raw text into cells, found in the previous round; a load of a cell that a normalised store
 	// dominates is raw again only if one of THESE can come in between
 	rawStores := map[*ssa.Store]bool{}
 	for round := 0; round < 5; round++ {
-		ev, un, found := caseUsesOnce(w, f, k, rawStores)
+		ev, un, found := caseUsesOnce(w, f, k, rawStores, resultSink)
 		grew := false
 		for st := range found {
 			if !rawStores[st] {
@@ -101,7 +107,7 @@ func caseUses(w *World, f *ssa.Function, k int) (evidence, unknown []string) {
 	return
 }
 
-func caseUsesOnce(w *World, f *ssa.Function, k int, rawStores map[*ssa.Store]bool) (evidence, unknown []string, rawFound map[*ssa.Store]bool) {
+func caseUsesOnce(w *World, f *ssa.Function, k int, rawStores map[*ssa.Store]bool, resultSink bool) (evidence, unknown []string, rawFound map[*ssa.Store]bool) {
 	rawFound = map[*ssa.Store]bool{}
 	if k >= len(f.Params) {
 		return nil, []string{"no such parameter"}, rawFound
@@ -241,6 +247,9 @@ func caseUsesOnce(w *World, f *ssa.Function, k int, rawStores map[*ssa.Store]boo
 					un[n+" at "+pos(x)] = true
 				}
 			case *ssa.Return:
+				if resultSink && x.Parent() == f && !types.IsInterface(v.Type()) {
+					ev[fmt.Sprintf("what is returned at %s", pos(x))] = true
+				}
 			case *ssa.MakeClosure:
 				un["a function literal at "+pos(x)] = true
 			default:
@@ -323,8 +332,10 @@ func keysCase(w *World, m ssa.Value) string {
 
 // judgeCase: the shared verdict. holds = the case of parameter k reaches nothing case-sensitive and
 // nothing that is not followed; broken = it reaches a case-sensitive operation (evidence listed).
-func judgeCase(w *World, f *ssa.Function, k int) (int, string) {
-	ev, un := caseUses(w, f, k)
+func judgeCase(w *World, f *ssa.Function, k int) (int, string) { return judgeCaseR(w, f, k, false) }
+
+func judgeCaseR(w *World, f *ssa.Function, k int, resultSink bool) (int, string) {
+	ev, un := caseUsesR(w, f, k, resultSink)
 	switch {
 	case len(ev) > 0:
 		return broken, "the text as typed (case not normalised) reaches " + strings.Join(ev, "; ")
